@@ -33,6 +33,7 @@ type CheckSpec struct {
 	Stubs       []string
 	Assumptions []string
 	Outside     []string
+	UsesVFS     bool // the harnesses rely on the file-system model: run its conformance test first
 	Bounds      map[string]string
 	TimeoutS    map[string]int
 }
@@ -170,6 +171,21 @@ func cmdCheck(args []string) int {
 		return fail("cannot load /repo with harness overlay: " + truncStr(err.Error(), 2000))
 	}
 	ev.Coverage["load_s"] = time.Since(start).Seconds()
+	var problems []string
+	if spec.UsesVFS {
+		seqs, ops, mm, err := VFSConformance(seed)
+		if err != nil {
+			problems = append(problems, "file-system model conformance: "+err.Error())
+		} else {
+			ev.Coverage["vfs_model_conformance"] = map[string]int{"sequences": seqs, "operations": ops, "mismatches": mm}
+			ev.NativeRan += seqs
+			if mm == 0 {
+				ev.NativeAgreed += seqs
+			} else {
+				problems = append(problems, fmt.Sprintf("the file-system model disagrees with the real OS on %d of %d conformance operations", mm, ops))
+			}
+		}
+	}
 	timeout := 900
 	if *tier == "thorough" {
 		timeout = 3 * 3600
@@ -178,7 +194,6 @@ func cmdCheck(args []string) int {
 		timeout = t
 	}
 	deadline := start.Add(time.Duration(timeout) * time.Second)
-	var problems []string
 	violations := 0
 	knownHits := 0
 	for i := range spec.Harnesses {
